@@ -214,6 +214,14 @@ func (s *Sim) LiveTrace(events []LiveEvent, heights int64) []map[string]interfac
 	// events are ordered by the sequence number taken when the handler started (see verif_trace_on.go)
 	events = append([]LiveEvent(nil), events...)
 	sort.SliceStable(events, func(i, j int) bool { return events[i].Ev.Seq < events[j].Ev.Seq })
+	if s.LiveCutSeq > 0 {
+		for i, e := range events {
+			if e.Ev.Seq > s.LiveCutSeq {
+				events = events[:i]
+				break
+			}
+		}
+	}
 	// pass 1: name the blocks: an own proposal followed by its own part
 	pend := map[int]*types.Proposal{}
 	propBy := map[string]int{}
@@ -332,7 +340,7 @@ func (s *Sim) peerIndex(key string) int {
 // RunLiveStack is RunLive with the REAL reactor stack instead of the relay: every honest node gets a real ConsensusReactor on a
 // real p2p.Switch, the switches are connected pairwise (p2p.MakeConnectedSwitches over net.Pipe, real MConnections), and all
 // gossip is done by the reactors' own routines. Byzantine validators are simply absent.
-func RunLiveStack(dir string, powers []int64, byz []int, maxRound int64, heights int64, limit time.Duration, scale int, laggard int, lagUntil int64, stopNode int) (*Sim, []LiveEvent, error) {
+func RunLiveStack(dir string, powers []int64, byz []int, maxRound int64, heights int64, limit time.Duration, scale int, laggard int, lagUntil int64, stopNode int, restartNode int) (*Sim, []LiveEvent, error) {
 	pbft.VerifTraceMaxRound = maxRound
 	var (
 		mtx    sync.Mutex
@@ -385,6 +393,7 @@ func RunLiveStack(dir string, powers []int64, byz []int, maxRound int64, heights
 	deadline := time.Now().Add(limit)
 	var rerr error
 	stopped := 0
+	restarted := false
 	for {
 		done := true
 		for _, i := range honest {
@@ -424,6 +433,64 @@ func RunLiveStack(dir string, powers []int64, byz []int, maxRound int64, heights
 					p2p.Connect2Switches(switches, pr[0], pr[1])
 				}
 				deferred = nil
+			}
+		}
+		if restartNode != 0 && !restarted {
+			ahead := true
+			for _, i := range honest {
+				if s.Nodes[i].Store.Height() < lagUntil {
+					ahead = false
+				}
+			}
+			if ahead {
+				restarted = true
+				// the recorded trace is validated up to this moment (the restarted process is not traced)
+				mtx.Lock()
+				for _, e := range events {
+					if e.Ev.Seq > s.LiveCutSeq {
+						s.LiveCutSeq = e.Ev.Seq
+					}
+				}
+				mtx.Unlock()
+				for k, i := range honest {
+					if i != restartNode {
+						continue
+					}
+					n := s.Nodes[i]
+					stopc := make(chan struct{})
+					go func() { switches[k].Stop(); close(stopc) }() // stops the reactor and with it the consensus state
+					select {
+					case <-stopc:
+					case <-time.After(5 * time.Second):
+					}
+					select {
+					case <-waitCh(n.CS):
+					case <-time.After(2 * time.Second):
+					}
+					// the stopped reactor's per-peer routines notice the stop only at the top of their loops (queryMaj23Routine
+					// sleeps up to 4 x 2 s in one pass) and read the block store until then; in a real crash they die with the
+					// process, here the stores are closed under them only after they are gone
+					time.Sleep(9 * time.Second)
+					s.shutdown(n)
+					n.Inc++
+					if err := s.boot(n, false); err != nil {
+						return s, nil, fmt.Errorf("restart of node %d: %v", i, err)
+					}
+					conR := pbft.NewConsensusReactor(n.CS, false)
+					n.CS.BindReactor(conR)
+					conR.SetEventSwitch(n.evsw)
+					nsw := p2p.MakeConnectedSwitches(cfg, 1, func(_ int, sw *p2p.Switch) *p2p.Switch {
+						sw.AddReactor("CONSENSUS", conR)
+						return sw
+					}, func([]*p2p.Switch, int, int) {})[0]
+					s.PeerIdx[nsw.NodeInfo().PubKey.KeyString()] = i
+					switches[k] = nsw
+					for k2 := range honest {
+						if k2 != k {
+							p2p.Connect2Switches(switches, k, k2)
+						}
+					}
+				}
 			}
 		}
 		if time.Now().After(deadline) {
